@@ -128,11 +128,14 @@ func (e *Exec) quiesce() {
 
 func (e *Exec) deadlock(th *Thread) {
 	msg := fmt.Sprintf("deadlock: thread %d (%s) blocked forever on %s", th.ID, th.Name, th.Wait)
+	saved := e.cur
 	for _, o := range e.threads {
-		if o != th && o.State == TBlocked && o.ParSlot > 0 {
-			msg += fmt.Sprintf("; thread %d blocked on %s", o.ID, o.Wait)
+		if o != th && o.State != TDone {
+			e.cur = o
+			msg += fmt.Sprintf("; thread %d (%s) blocked on %s at %s", o.ID, o.Name, o.Wait, e.where())
 		}
 	}
+	e.cur = saved
 	e.fail("deadlock", msg)
 }
 
